@@ -43,9 +43,9 @@ def main(ctx, args):
         ctx.finish()
     times = 24 if ctx.tier == "quick" else 96
     plan = [("scalar", 800, False), ("scalar_tself", 400, False), ("scalar_deep", 300, False), ("nolam", 700, False), ("records", 300, False),
-            ("scalar", 200, True)] if ctx.tier == "quick" else \
+            ("aggr", 400, False), ("scalar", 200, True)] if ctx.tier == "quick" else \
            [("scalar", 8000, False), ("scalar_tself", 4000, False), ("scalar_deep", 3000, False), ("nolam", 8000, False), ("records", 3000, False),
-            ("scalar", 2000, True)]
+            ("aggr", 4000, False), ("scalar", 2000, True)]
     allcases = []
     gstats = collections.Counter()
     if args.replay:
